@@ -31,9 +31,11 @@ VARIABLES l,         \* next line
           ops,       \* process -> contract-level operation (from spawn lines)
           results,   \* process -> abstract result (from result lines)
           crashed,   \* a crash line has been seen in this run
-          faults     \* number of injected faults so far in this run
+          faults,    \* number of injected faults so far in this run
+          resolv     \* this run has no operation that removes content by address, so every
+                     \* visible entry must resolve (begin line)
 
-fvars == <<vars, l, pre, ops, results, crashed, faults>>
+fvars == <<vars, l, pre, ops, results, crashed, faults, resolv>>
 
 Ev == Rec[l]
 Range(s) == { s[i] : i \in 1..Len(s) }
@@ -75,7 +77,7 @@ NoPartialRecord ==
 \* C04 / C13: whenever an entry is visible its content is completely stored (programs that
 \* remove content by address switch this off in the header)
 RecordsResolvable ==
-    Hdr.resolvable =>
+    (Hdr.resolvable /\ resolv) =>
       \A k \in DOMAIN buckets :
          LET e == LookupIn(buckets[k], k) IN
          e # <<>> => BytesAt(Addr(e[1].sri)) = Addr(e[1].sri).d
@@ -210,18 +212,19 @@ EndOK ==
 (* ---- the trace specification ------------------------------------------------------------ *)
 
 TInit == /\ Init /\ l = 2 /\ pre = [buckets |-> EmptyFn] /\ ops = EmptyFn /\ results = EmptyFn
-         /\ crashed = FALSE /\ faults = 0
+         /\ crashed = FALSE /\ faults = 0 /\ resolv = TRUE
 
 TBegin == /\ l <= N /\ Ev.ev = "begin"
           /\ Adopt(Ev.snap)
           /\ pre' = [buckets |-> ObsBuckets(Ev.snap), store |-> ObsStore(Ev.snap),
                      hasIndex |-> Ev.snap.hasIndex]
           /\ ops' = EmptyFn /\ results' = EmptyFn /\ crashed' = FALSE /\ faults' = 0
+          /\ resolv' = Ev.resolvable
           /\ l' = l + 1
 
 TSpawn == /\ l <= N /\ Ev.ev = "spawn"
           /\ ops' = Upd(ops, Ev.p, Ev.op)
-          /\ UNCHANGED <<vars, pre, results, crashed, faults>>
+          /\ UNCHANGED <<vars, pre, results, crashed, faults, resolv>>
           /\ l' = l + 1
 
 TSys == /\ l <= N /\ Ev.ev = "sys"
@@ -229,37 +232,37 @@ TSys == /\ l <= N /\ Ev.ev = "sys"
         /\ StepOK(Ev)
         /\ Chk("RecordsResolvable", RecordsResolvable)
         /\ faults' = IF Ev.faulted \/ Ev.action = "short" THEN faults + 1 ELSE faults
-        /\ UNCHANGED <<pre, ops, results, crashed>>
+        /\ UNCHANGED <<pre, ops, results, crashed, resolv>>
         /\ l' = l + 1
 
 \* a mutating path-taking call outside the cache directory and the destination: never allowed
 TOutside == /\ l <= N /\ Ev.ev = "outside"
             /\ Chk("OutsideMutation", FALSE)
-            /\ UNCHANGED <<vars, pre, ops, results, crashed, faults>>
+            /\ UNCHANGED <<vars, pre, ops, results, crashed, faults, resolv>>
             /\ l' = l + 1
 
 THang == /\ l <= N /\ Ev.ev = "hang"
          /\ Chk("Hang", FALSE)
-         /\ UNCHANGED <<vars, pre, ops, results, crashed, faults>>
+         /\ UNCHANGED <<vars, pre, ops, results, crashed, faults, resolv>>
          /\ l' = l + 1
 
 TResult == /\ l <= N /\ Ev.ev = "result"
            /\ results' = Upd(results, Ev.p, Ev.res)
-           /\ UNCHANGED <<vars, pre, ops, crashed, faults>>
+           /\ UNCHANGED <<vars, pre, ops, crashed, faults, resolv>>
            /\ l' = l + 1
 
 TCrash == /\ l <= N /\ Ev.ev = "crash"
           /\ Adopt(Ev.snap)
           /\ Chk("CrashLeft", CrashOK(Ev))
           /\ crashed' = TRUE
-          /\ UNCHANGED <<pre, ops, results, faults>>
+          /\ UNCHANGED <<pre, ops, results, faults, resolv>>
           /\ l' = l + 1
 
 TEnd == /\ l <= N /\ Ev.ev = "end"
         /\ Adopt(Ev.snap)
         /\ Chk("EndStable", <<buckets', store', ext'>> = <<buckets, store, ext>>)
         /\ EndOK
-        /\ UNCHANGED <<pre, ops, results, crashed, faults>>
+        /\ UNCHANGED <<pre, ops, results, crashed, faults, resolv>>
         /\ l' = l + 1
 
 TNext == TBegin \/ TSpawn \/ TSys \/ TOutside \/ THang \/ TResult \/ TCrash \/ TEnd
